@@ -416,6 +416,11 @@ pub fn default_options() -> Options {
     Options::default()
 }
 
+/// ReadFromHeader, no limit, complete input required
+pub fn is_default_options(o: &Options) -> bool {
+    matches!(o.unpacked_size, UnpackedSize::ReadFromHeader) && o.memlimit.is_none() && !o.allow_incomplete
+}
+
 pub fn opts(us: UnpackedSize, memlimit: Option<usize>, allow_incomplete: bool) -> Options {
     Options {
         unpacked_size: us,
@@ -438,6 +443,8 @@ pub fn decode_with_stats(
     let r = observed(obs, || {
         let mut reader = make_reader(rk, data, rs2);
         match entry {
+            // the plain wrapper and the explicit default options must be the same thing: alternate
+            Entry::Lzma if is_default_options(options) && data.len() % 2 == 0 => lzma_rs::lzma_decompress(&mut reader, &mut sink),
             Entry::Lzma => lzma_rs::lzma_decompress_with_options(&mut reader, &mut sink, options),
             Entry::Lzma2 => lzma_rs::lzma2_decompress(&mut reader, &mut sink),
             Entry::Xz => lzma_rs::xz_decompress(&mut reader, &mut sink),
